@@ -230,13 +230,18 @@ func replayAll(prop string, results []jobResult, viols []*Violation, loaded []*L
 					continue
 				}
 				confirmed := false
-				if v.Name == "uncaught-panic" {
-					confirmed = r.Panic != ""
-				} else {
+				// any assertion of the harness failing natively on the model is a genuine violation of
+				// the property (the failing assertion may be a neighbouring clause of the same defect)
+				confirmed = r.Panic != "" || len(r.Failed) > 0
+				if confirmed && v.Name != "uncaught-panic" {
+					same := false
 					for _, f := range r.Failed {
 						if f == v.Name {
-							confirmed = true
+							same = true
 						}
+					}
+					if !same {
+						v.Detail = strings.TrimSpace(v.Detail + fmt.Sprintf(" (natively failing assertion(s): %v)", r.Failed))
 					}
 				}
 				if confirmed {
